@@ -422,7 +422,9 @@ NLK == Len(S!NLSeps)
 AllSep(n, s) == [i \in 1..(n + 1) |-> IF i = 1 \/ i = n + 1 THEN "" ELSE s]
 MixSeps(n, k) == [i \in 1..(n + 1) |-> S!NonNLSeps[((i * k + Salt + k) % NNL) + 1]]
 NLAt(n, g) == [i \in 1..(n + 1) |-> IF i = g THEN S!NLSeps[((g + Salt) % NLK) + 1] ELSE IF i = 1 \/ i = n + 1 THEN "" ELSE "sp"]
-NLAll(n) == [i \in 1..(n + 1) |-> IF i = 1 THEN "" ELSE S!NLSeps[((i + Salt) % NLK) + 1]]
+(* a line terminator in every gap; stride k: gap i has kind i*k, so over k \in 1..NLK every ordered *)
+(* pair of kinds (CR then LF, LF then CR, the same kind twice, ...) is adjacent around a token        *)
+NLAll(n, k) == [i \in 1..(n + 1) |-> IF i = 1 THEN "" ELSE S!NLSeps[((i * k + Salt) % NLK) + 1]]
 
 Out(r) == IF r.c = "accept" THEN r ELSE [c |-> r.c, prog |-> <<>>]
 (* a rendering: token sequence + separators; must: this rendering has to give the tree prog *)
@@ -447,7 +449,7 @@ TreeCases(fam, prog, full) ==
                   Spec0(fam, "mix1", T, MixSeps(n, 1), TRUE, prog), Spec0(fam, "mix2", T, MixSeps(n, 5), TRUE, prog)>>
         xps == [m \in 1..4 |-> LET T2 == S!ToksProgram(prog, m) IN Spec0(fam, "xp", T2, AllSep(Len(T2), IF m = 3 THEN "" ELSE "sp"), TRUE, prog)]
         nls == IF full THEN [g \in 1..n |-> Spec0(fam, "nl", T, NLAt(n, g + 1), FALSE, prog)] ELSE <<>>
-        nla == IF full THEN <<Spec0(fam, "nlall", T, NLAll(n), FALSE, prog)>> ELSE <<>>
+        nla == IF full THEN [k \in 1..NLK |-> Spec0(fam, "nlall", T, NLAll(n, k), FALSE, prog)] ELSE <<>>
         semis == IF full THEN
                     SetToSeq({Spec0(fam, "semi-nl", DropAt(T, j), NLAt(n - 1, j), FALSE, prog) : j \in SemiIdx(T)}
                              \cup {Spec0(fam, "semi-sp", DropAt(T, j), AllSep(n - 1, "sp"), FALSE, prog) : j \in SemiIdx(T)})
@@ -457,7 +459,8 @@ TreeCases(fam, prog, full) ==
 (* all cases of a hand-written token sequence *)
 SeqCases(fam, T) ==
     LET n == Len(T)
-    IN  <<Spec0(fam, "sp", T, AllSep(n, "sp"), FALSE, <<>>), Spec0(fam, "mix1", T, MixSeps(n, 3), FALSE, <<>>), Spec0(fam, "nlall", T, NLAll(n), FALSE, <<>>)>>
+    IN  <<Spec0(fam, "sp", T, AllSep(n, "sp"), FALSE, <<>>), Spec0(fam, "mix1", T, MixSeps(n, 3), FALSE, <<>>), Spec0(fam, "nlall", T, NLAll(n, 1), FALSE, <<>>)>>
+        \o [k \in 1..(NLK - 1) |-> Spec0(fam, "nlall", T, NLAll(n, k + 1), FALSE, <<>>)]
         \o [g \in 1..n |-> Spec0(fam, "nl", T, NLAt(n, g + 1), FALSE, <<>>)]
 
 (* a lexical case: the text is given; the tokens carry their own nl flags *)
